@@ -375,25 +375,56 @@ func replay(args []string) int {
 	if err := json.Unmarshal(b, &v); err != nil {
 		fatal(2, "%v", err)
 	}
-	bi, err := ensureBuild(false)
+	spec, ok := specs[v.Property]
+	if !ok {
+		fatal(2, "unknown property %q in replay file", v.Property)
+	}
+	bi, err := ensureBuild(spec.Race)
 	if err != nil {
 		fatal(2, "build: %v", err)
 	}
+	fmt.Printf("replaying %s case #%d (tier %s) of property %s\nrecorded: clause=%q sig=%q\n  input=%s\n  expected=%.300s\n  observed=%.300s\n",
+		args[0], v.CaseIndex, v.Tier, v.Property, v.Clause, v.Sig, compact(v.Input), v.Expected, v.Observed)
+	if v.Kind == "race" || v.Kind == "process-death" {
+		fmt.Println("this record has no case index (race-detector report / process death): re-run the check to reproduce")
+		return 0
+	}
+	// the enumeration of every check is deterministic: case #n is re-executed alone, on the
+	// uninstrumented build first (the real code), then on the instrumented one.
+	exit := 0
 	for _, bin := range []string{bi.Plain, bi.Instr} {
-		cmd := exec.Command(bin, "-prop", v.Property, "-replay", args[0])
-		cmd.Stdout, cmd.Stderr = os.Stdout, os.Stderr
-		ctx, cancel := context.WithTimeout(context.Background(), 60*time.Second)
-		cmd = exec.CommandContext(ctx, bin, "-prop", v.Property, "-replay", args[0])
-		out, err := cmd.CombinedOutput()
+		ctx, cancel := context.WithTimeout(context.Background(), 120*time.Second)
+		cmd := exec.CommandContext(ctx, bin, "-prop", v.Property, "-tier", v.Tier, "-seed", strconv.FormatInt(v.Seed, 10), "-only", strconv.FormatInt(v.CaseIndex, 10))
+		var stdout, stderr bytes.Buffer
+		cmd.Stdout, cmd.Stderr = &stdout, &stderr
+		err := cmd.Run()
 		cancel()
-		fmt.Printf("== %s ==\n%s", filepath.Base(bin), out)
+		fmt.Printf("== %s ==\n", filepath.Base(bin))
 		if ctx.Err() != nil {
-			fmt.Println("did not return within 60 s")
-		} else if err != nil {
-			fmt.Println("exit:", err)
+			fmt.Println("did not return within 120 s (hang confirmed)")
+			exit = 1
+			continue
+		}
+		if err != nil {
+			fmt.Printf("process died: %v\n%.2000s\n", err, stderr.String())
+			exit = 1
+			continue
+		}
+		var r proto.Result
+		lines := bytes.Split(bytes.TrimSpace(stdout.Bytes()), []byte("\n"))
+		if err := json.Unmarshal(lines[len(lines)-1], &r); err != nil {
+			fmt.Printf("bad output: %v\n", err)
+			continue
+		}
+		if len(r.Violations) == 0 {
+			fmt.Printf("case executed (%d oracle comparisons): no violation\n", r.Cases)
+		}
+		for _, rv := range r.Violations {
+			exit = 1
+			fmt.Printf("VIOLATION reproduced: clause=%q sig=%q\n  expected=%.400s\n  observed=%.400s\n", rv.Clause, rv.Sig, rv.Expected, rv.Observed)
 		}
 	}
-	return 0
+	return exit
 }
 
 func check(args []string) int {
